@@ -2280,6 +2280,22 @@ func (g *fnGen) call(call *ast.CallExpr, p *[]binding) string {
 		*p = append(*p, binding{pat: tmp, rhs: term})
 		return tmp
 	}
+	if g.t.timeInt {
+		// --timeint: time.Time is Z (nanoseconds on one clock)
+		if sel, ok := ast.Unparen(call.Fun).(*ast.SelectorExpr); ok && len(call.Args) == 1 {
+			switch libName(g.fi.pk, call) {
+			case "(time.Time).Before":
+				a, b := paren(g.expr(sel.X, p)), paren(g.expr(call.Args[0], p))
+				return "(" + a + " <? " + b + ")"
+			case "(time.Time).After":
+				a, b := paren(g.expr(sel.X, p)), paren(g.expr(call.Args[0], p))
+				return "(" + b + " <? " + a + ")"
+			case "(time.Time).Equal":
+				a, b := paren(g.expr(sel.X, p)), paren(g.expr(call.Args[0], p))
+				return "(" + a + " =? " + b + ")"
+			}
+		}
+	}
 	if term, nres, ok := g.ifaceTerm(call, p); ok {
 		if nres != 1 {
 			g.failf(call, "call with %d results inside an expression", nres)
